@@ -99,6 +99,7 @@ def rangeSpec : List (Nat × Constraint) := [
   ((key! "magnetic_heading").id, .range 0 360 false),
   ((key! "wind_direction").id, .range 0 360 false),
   ((key! "selected_heading").id, .range 0 360 false),
+  ((key! "threat_bearing").id, .range 0 360 false),
   ((key! "roll").id, .range (-90) 90 true),
   ((key! "lat_cpr").id, .below (2 ^ 17)),
   ((key! "lon_cpr").id, .below (2 ^ 17)),
